@@ -66,8 +66,8 @@ def Ty.hi : Ty → Int
 
 def Ty.ofCode (c : Nat) : Option Ty := Ty.all.find? (fun t => t.code == c)
 
-/-- the E5 item-format table: (mnemonic, format code, element width, signed, float, least, greatest) for the numeric formats,
-the same row shape with zeros for the others -/
+/-- the E5 item-format table: (mnemonic, format code, element width, least, greatest) for the numeric formats
+(floats: bit patterns of the largest finite value, negated and not), the same row shape with zeros for the others -/
 def typeTable : List (String × Nat × Nat × Int × Int) :=
   ("L", 0, 0, 0, 0) :: Ty.all.map (fun t => (t.name, t.code, (match t.kind with | .sint | .uint | .f32 | .f64 => t.width | _ => 0),
     (match t.kind with | .sint | .uint | .f32 | .f64 => t.lo | _ => 0), (match t.kind with | .sint | .uint | .f32 | .f64 => t.hi | _ => 0)))
@@ -102,6 +102,39 @@ def beqList : List Val → List Val → Bool
   | x :: xs, y :: ys => x.beq y && beqList xs ys
   | _, _ => false
 end
+
+mutual
+theorem Val.beq_eq (a b : Val) (h : a.beq b = true) : a = b := by
+  match a, b with
+  | .list xs, .list ys => simp only [Val.beq] at h; rw [beqList_eq xs ys h]
+  | .item t es, .item u fs =>
+    simp only [Val.beq, Bool.and_eq_true, beq_iff_eq] at h
+    rw [h.1, h.2]
+  | .list _, .item _ _ => simp [Val.beq] at h
+  | .item _ _, .list _ => simp [Val.beq] at h
+theorem beqList_eq (xs ys : List Val) (h : beqList xs ys = true) : xs = ys := by
+  match xs, ys with
+  | [], [] => rfl
+  | x :: xs, y :: ys =>
+    simp only [beqList, Bool.and_eq_true] at h
+    rw [Val.beq_eq x y h.1, beqList_eq xs ys h.2]
+  | [], _ :: _ => simp [beqList] at h
+  | _ :: _, [] => simp [beqList] at h
+end
+
+mutual
+theorem Val.beq_refl (a : Val) : a.beq a = true := by
+  match a with
+  | .list xs => simp only [Val.beq]; exact beqList_refl xs
+  | .item t es => simp [Val.beq]
+theorem beqList_refl (xs : List Val) : beqList xs xs = true := by
+  match xs with
+  | [] => rfl
+  | x :: xs => simp only [beqList, Val.beq_refl x, beqList_refl xs, Bool.and_self]
+end
+
+instance : DecidableEq Val := fun a b =>
+  if h : a.beq b = true then isTrue (Val.beq_eq a b h) else isFalse (fun e => h (e ▸ Val.beq_refl a))
 
 mutual
 def Val.size : Val → Nat
